@@ -335,17 +335,34 @@ fn monitor_step(dir: &Path, cas: &Cas<K>, step: usize, found: &mut Vec<(Vec<&'st
     if !found.is_empty() {
         return;
     }
+    // The blobs these programs can create are those of the content universe; they are probed directly (a few
+    // syscalls). A full walk of cas/ is done when the last call touched any other path under cas/, and at quiescence.
+    let cands: Vec<(String, [u8; 32])> = [keys::C_X, keys::C_Y, keys::C_E].iter().map(|c| b3(keys::content(*c))).map(|h| (ondisk::path_of_hash(&h), h)).collect();
+    let mut present: BTreeMap<String, Vec<u8>> = BTreeMap::new();
+    let touched_other = last_label.contains("cas/") && !cands.iter().any(|(p, _)| last_label.contains(p.as_str()));
+    if touched_other || step == 0 {
+        let cas_im = Image::load(&dir.join("cas"));
+        for (rel, data) in &cas_im.files {
+            if ondisk::hash_of_path(rel).is_none() {
+                found.push((vec!["C06"], "step-cas-stray".into(), format!("at scheduling step {step} a non-blob file cas/{rel} is visible")));
+                return;
+            }
+            present.insert(rel.clone(), data.clone());
+        }
+    } else {
+        for (rel, _) in &cands {
+            if let Ok(d) = std::fs::read(dir.join("cas").join(rel)) {
+                present.insert(rel.clone(), d);
+            }
+        }
+    }
     // C06: every blob-named file under cas/ holds the bytes its name encodes
-    let cas_im = Image::load(&dir.join("cas"));
-    for (rel, data) in &cas_im.files {
+    for (rel, data) in &present {
         if let Some(h) = ondisk::hash_of_path(rel) {
             if b3(data) != h {
                 found.push((vec!["C06"], "step-cas-content".into(), format!("at scheduling step {step} (after {last_label}) cas/{rel} holds {} which does not hash to its name", util::show(data))));
                 return;
             }
-        } else {
-            found.push((vec!["C06"], "step-cas-stray".into(), format!("at scheduling step {step} a non-blob file cas/{rel} is visible")));
-            return;
         }
     }
     // C04: every key visible in the index resolves to an intact blob
@@ -353,7 +370,11 @@ fn monitor_step(dir: &Path, cas: &Cas<K>, step: usize, found: &mut Vec<(Vec<&'st
         let st = cas.read_index_state();
         for (k, it) in st.iter() {
             let rel = ondisk::path_of_hash(it.blob_hash.as_bytes());
-            match cas_im.files.get(&rel) {
+            let data = match present.get(&rel) {
+                Some(d) => Some(d.clone()),
+                None => std::fs::read(dir.join("cas").join(&rel)).ok(),
+            };
+            match data {
                 None => {
                     found.push((vec!["C04"], "dangling-reference".into(), format!("at scheduling step {step} (after {last_label}) key {k:?} -> {} but cas/{rel} does not exist", &it.blob_hash.to_hex()[..8])));
                     return;
@@ -383,20 +404,19 @@ pub fn run_one(p: &Program, tmpl: &(Image, BTreeMap<String, Vec<u8>>), prefix: &
     let stats = stats.map(Arc::new);
     let hist: Arc<Mutex<Vec<Rec>>> = Arc::new(Mutex::new(Vec::new()));
     let bodies: Vec<Body> = p.threads.iter().enumerate().map(|(i, ops)| thread_body(i, ops.clone(), cas.clone(), stats.clone(), qdir.clone(), hist.clone())).collect();
-    let mut step_findings: Vec<(Vec<&'static str>, String, String)> = Vec::new();
-    let cas_m = cas.clone();
-    let dir_m = dir.clone();
+    let step_store: Arc<Mutex<Vec<(Vec<&'static str>, String, String)>>> = Arc::new(Mutex::new(Vec::new()));
     let exec = {
-        let mut monitor = |step: usize, prev: &str| {
+        let (cas_m, dir_m, store) = (cas.clone(), dir.clone(), step_store.clone());
+        let monitor: sched::Monitor = Box::new(move |step: usize, prev: &str| {
             // cas/ and the index only change through a visible filesystem call or under the state write lock
             let relevant = step == 0 || prev.contains("@fs:") || prev.contains(":State") || prev.contains("@start") || prev.contains("next-op") || prev.contains("before-drain");
             if relevant {
-                monitor_step(&dir_m, &cas_m, step, &mut step_findings, prev);
+                monitor_step(&dir_m, &cas_m, step, &mut store.lock().unwrap(), prev);
             }
-        };
-        sched::run_schedule(&dir, bodies, prefix, if p.vis == 1 { sched::visible_with_staging } else { sched::visible_default }, &mut monitor, Duration::from_secs(60))
+        });
+        sched::run_schedule(&dir, bodies, prefix, if p.vis == 1 { sched::visible_with_staging } else { sched::visible_default }, monitor, Duration::from_secs(60))
     };
-    drop(cas_m);
+    let mut step_findings = std::mem::take(&mut *step_store.lock().unwrap());
     let has_cleanup = p.threads.iter().flatten().any(|o| o.is_cleanup());
     // "clean-up never removes a blob that is referenced or that a concurrent put of the same content is committing" (C08)
     if has_cleanup {
@@ -650,6 +670,11 @@ pub fn programs(tier: &str) -> Vec<(Program, Option<usize>)> {
                 if quick && init == Init::Empty && (a.is_read() || b.is_read() || matches!(a, TOp::Checkpoint) || matches!(b, TOp::Checkpoint)) {
                     continue;
                 }
+                // quick tier: the orphan store adds something over a=X only for clean-up operations and puts of the orphaned content
+                let touches_orphan = |o: &TOp| o.is_cleanup() || matches!(o, TOp::Put { c, .. } | TOp::Abort { c, .. } if *c == keys::C_Y);
+                if quick && init == Init::AOrphan && !(touches_orphan(&a) || touches_orphan(&b)) {
+                    continue;
+                }
                 if (a.is_cleanup() || b.is_cleanup()) && init != Init::AOrphan {
                     continue;
                 }
@@ -680,7 +705,11 @@ pub fn programs(tier: &str) -> Vec<(Program, Option<usize>)> {
         for b in writers.iter().skip(wi) {
             for c in thirds.iter() {
                 let full = tier != "quick";
-                let interesting = matches!((a, b), (TOp::Put { .. }, TOp::Put { .. })) && matches!(c, TOp::Remove { .. } | TOp::Get { .. } | TOp::DeleteOrphans);
+                let same_key_or_content = match (a, b) {
+                    (TOp::Put { k: k1, c: c1 }, TOp::Put { k: k2, c: c2 }) => (k1 == k2) != (c1 == c2),
+                    _ => false,
+                };
+                let interesting = same_key_or_content && matches!(c, TOp::Remove { k: 0 } | TOp::Get { .. } | TOp::DeleteOrphans);
                 if !full && !interesting {
                     continue;
                 }
@@ -731,7 +760,7 @@ fn relevant(p: &Program, prop: &str) -> bool {
     match prop {
         "C13" => ops.iter().any(|o| matches!(o, TOp::Abort { .. })) || p.vis == 1,
         "C08" => ops.iter().any(|o| o.is_cleanup()),
-        "C07" => ops.iter().all(|o| !o.is_read()) && writers >= 1 && p.init != Init::Empty,
+        "C07" => ops.iter().all(|o| !o.is_read()) && writers >= 1 && (p.init == Init::AB || p.cfg.n == 1 || p.threads.len() > 2),
         "C06" => writers >= 1 && ops.iter().all(|o| matches!(o, TOp::Put { .. } | TOp::Remove { .. } | TOp::RemoveRangeAll | TOp::GetReader { .. } | TOp::Abort { .. })) && p.init != Init::Empty,
         _ => true,
     }
